@@ -559,6 +559,7 @@ pub fn run(tier: Tier) -> i32 {
     let rep = Report::new("C03", tier);
     rep.set_rule("A: fragment trains from the real encapsulator (PDUs of 5/12/40 bytes x labels 6B/3B/broadcast/re-use x 2..5 fragments) with EVERY single fault of the menu (drop, duplicate, swap, every single-bit flip incl. header bits, every burst pattern up to 10 (thorough 14) bits at every bit offset, truncation at every byte, every fragment id value, listed total-length and CRC replacements) and all ordered pairs of drop/dup/swap/bit-flip faults (quick: first four trains), plus every structural/length/frag-id fault (once and twice) followed by a recomputation of the CRC trailer over what is actually received; trains include ones whose end fragment carries the CRC alone; B: breadth-first search over all sequences of 21 hand-built, syntactically valid fragments (incl. CRC-only end fragments whose trailer matches a concatenation of the wrong length) (trains of two different PDUs spliced on one fragment id, another id, an aliasing id, right/wrong CRC and lengths) to closure with state merging on (receiver snapshot, reference state). Oracle in both: exact 'delivered only if' evaluated on the received bytes by a reference receiver + reference CRC. distinct = fault class x deliveries / packet x outcome");
     part_a(&rep, tier);
+    directed_long(&rep);
     let sys = b_sys();
     let depth = 64;
     let ex = explore(&sys, &Limits { max_states: 5_000_000, max_depth: depth }, &rep, "B spliced trains");
@@ -566,4 +567,42 @@ pub fn run(tier: Tier) -> i32 {
     let i = ex.states.len() - 1;
     rep.sample(1000, || json!({"B_states": delivered_states, "one_history": ex.path(i).iter().map(|o| sys.op_json(o)).collect::<Vec<_>>()}));
     rep.finish(true)
+}
+
+/// Directed trains longer than 65535 bytes (storage of 70000 bytes): the announced total length is
+/// small, the concatenation is 65536 + k bytes long so that a 16-bit length comparison wraps, and
+/// the trailer is the correct CRC of what is received.
+fn directed_long(rep: &Report) {
+    let mut acc = Acc::default();
+    for (l, lname) in [(L6A, "6B"), (L3A, "3B"), (Lbl::Bcast, "BC")] {
+        let lw = l.wire_len();
+        for extra in [0usize, 1, 2, 5] {
+            // concatenation of n bytes with (n + 2 + lw) mod 65536 == t, t small but > first payload
+            let n = 65536 + extra + 1;
+            let t = ((n + 2 + lw) % 65536) as u16;
+            let pd: Vec<u8> = (0..n).map(|i| (i % 253) as u8).collect();
+            let mut seq: Vec<Vec<u8>> = vec![Desc::first(l, 0x0800, 0, t, &pd[..1]).print()];
+            let mut pos = 1usize;
+            // intermediates up to exactly 65535 bytes received, then the end fragment carries the rest
+            while pos + 4094 <= 65535 {
+                seq.push(Desc::inter(0, &pd[pos..pos + 4094]).print());
+                pos += 4094;
+            }
+            if pos < 65535 {
+                seq.push(Desc::inter(0, &pd[pos..65535]).print());
+                pos = 65535;
+            }
+            let crc = crc_ref(t, 0x0800, &l.bytes(), &pd);
+            seq.push(Desc::end(0, &pd[pos..], crc).print());
+            let rx0 = RxS::new(1, 70000, &[70000]);
+            acc.states += 1;
+            let (viols, delivered) = run_seq(&rx0, &RefRx::default(), &seq, &mut acc);
+            acc.outcome(&format!("directed-long:{}:delivered{}", lname, delivered));
+            for (cl, txt) in viols {
+                rep.violation(&format!("C03|directed-long|{}|{}", cl, lname), extra as u64, || (format!("train of {} bytes announcing total length {} (label {}), trailer = CRC of what is received: {}", n, t, lname, txt), json!({"label": lname, "announced_total_length": t, "received_pdu_bytes": n, "packets": seq.len(), "storage": 70000})));
+            }
+        }
+    }
+    rep.merge(acc);
+    rep.part(json!({"part":"directed: trains longer than 65535 bytes whose 16-bit length sum wraps onto the announced total length","cases":12}));
 }
